@@ -23,6 +23,15 @@ Theorem c17_partition_index : forall key all avail pick,
 Proof. exact partition_keyed. Qed.
 Print Assumptions c17_partition_index.
 
+(* ... and when that list is sorted by partition id (0..n-1; checked end to end on the real
+   producer with shuffled Metadata replies) the partition ID itself is Java's value *)
+Theorem c17_partition_id : forall key n avail pick,
+  wfb key -> zlen key < 2147483648 -> (0 < n)%nat ->
+  Partitioner.py (Some key) (map Z.of_nat (seq 0 n)) avail pick =
+  Ok (java_partition (map to_signed_byte key) (Z.of_nat n)).
+Proof. exact partition_id_sorted. Qed.
+Print Assumptions c17_partition_id.
+
 (* an unkeyed record goes to an available partition whenever one is available, for every
    value of the random choice *)
 Theorem c17_unkeyed_available : forall all avail pick,
